@@ -554,15 +554,9 @@ class DataType(object):
 
             if len(split_data_type) < 5:
                 etree.SubElement(element, 'param', name='minInclusive').text = str(0)
-                # Assure that integer part is not zero padded, fractional part
-                # is padded and no plus sign is present
-                etree.SubElement(element, 'param', name='pattern').text = \
-                    r'([1-9][0-9]*\..{%d})|(0\..{%d})' % (int(fractional), int(fractional))
-            else:
-                # Assure that integer part is not zero padded, fractional part
-                # is padded, zero is unsigned and no plus sign is present
-                etree.SubElement(element, 'param', name='pattern').text = \
-                    r'(-?[1-9][0-9]*\..{%d})|(-?0\.\d*[1-9]\d*)|(0\.0{%d})' % (int(fractional), int(fractional))
+
+            etree.SubElement(element, 'param', name='pattern').text = \
+                self._generate_decimal_pattern(int(fractional), signed=len(split_data_type) >= 5)
 
             return element
 
@@ -573,15 +567,29 @@ class DataType(object):
                 type='decimal'
             )
 
-            # Assure that integer part is not zero padded, fractional part
-            # is padded, zero is unsigned and no plus sign is present
-            etree.SubElement(element, 'param', name='pattern').text = \
-                r'(-?[1-9][0-9]*\..{4})|(-?0\.\d*[1-9]\d*)|(0\.0{4})'
+            etree.SubElement(element, 'param', name='pattern').text = self._generate_decimal_pattern(4, signed=True)
 
             return element
 
         else:
             raise TypeError('Unknown data type: ' + split_data_type[0])
+
+    @staticmethod
+    def _generate_decimal_pattern(fractional, signed):
+        # Assure that the integer part is not zero padded, the fractional part has exactly
+        # the specified number of digits, zero is unsigned and no plus sign is present.
+        fraction = r'\.\d{%d}' % fractional if fractional > 0 else ''
+        if not signed:
+            return r'([1-9][0-9]*%s)|(0%s)' % (fraction, fraction)
+        pattern = r'(-?[1-9][0-9]*%s)|(0%s)' % (fraction, fraction)
+        if fractional > 0:
+            # Negative values having a zero integer part: The fractional part
+            # must contain a digit other than zero.
+            non_zero_fractions = '|'.join(
+                r'0{%d}[1-9]\d{%d}' % (i, fractional - 1 - i) for i in range(fractional)
+            )
+            pattern += r'|(-0\.(%s))' % non_zero_fractions
+        return pattern
 
     def _generate_schema_uri(self):
         # Note that anyURI XML data type allows anything, we could
